@@ -11,7 +11,8 @@
     text level    comment_line_vanishes, comment_line_strips, commentexpr_guard_safe, comment_total,
                   comment_lines_safe, comment_lines_invisible, assert_comment_invisible/_unused,
                   label_sanitised_legal, label_injective(_in_index), label_not_main,
-                  name_comment_safe_partial (+ name_comment_counterexample: the full statement is false)
+                  header_comment_lines_safe, header_lines, name_comment_safe (every name; the old text:
+                  name_comment_regression)
     wrapper nodes note_transparent, note_stmt_empty_block, nonce_only_push_pop, note_semantics,
                   nonce_semantics, hasReturn_note/_nonce (code-generation model `Comp.gen`, source
                   semantics `Src.eval`; C01's `gen_correct` covers their run-time meaning)
@@ -25,7 +26,9 @@
   string literal / `base64(...)` discards the rest of the physical line.
 -/
 import PyTealV.Proofs.C13Lemmas
+import PyTealV.Proofs.AnnotLemmas
 import PyTealV.Models.Annot
+import PyTealV.Models.LabelText
 import PyTealV.Comp.Gen
 import PyTealV.Src
 namespace PyTealV.Proofs.C18
@@ -33,15 +36,9 @@ open PyTealV PyTealV.Avm PyTealV.Models.Annot PyTealV.Proofs.C13
 
 /-! ## helper lemmas -/
 
-theorem toList_commentOp (t : String) : (commentOp t).toList = '/' :: '/' :: ' ' :: t.toList := by
-  simp [commentOp]
-
-/-- a line that starts with `//` has no tokens, whatever follows -/
-theorem tokenise_slashes (rest : List Char) : tokenise (String.ofList ('/' :: '/' :: rest)) = [] := by
-  rw [tokenise_def, String.toList_ofList]
-  simp [tokenise.go, isWs_eq, flush_eq]
-
-theorem tokenise_empty : tokenise "" = [] := by decide
+-- `toList_commentOp`, `tokenise_slashes`, `tokenise_empty`, `comment_line_vanishes` and the `splitlines` lemmas
+-- (`splitlinesAux_no_break`, `splitlines_piece_chars`, `not_break_ne`, `headerPieces_chars`) are in
+-- `Proofs/AnnotLemmas.lean` (shared with C04), in this namespace.
 
 /-! ### physical lines -/
 
@@ -81,48 +78,6 @@ theorem strip_single (l : String) (h : '\n' ∉ l.toList) :
 
 theorem strip_empty : stripComments "" = [] := by decide
 
-/-! ### `splitlines` -/
-
-theorem splitlinesAux_no_break (cs cur : List Char) (b : Bool)
-    (hcur : ∀ c ∈ cur, isBreak c = false) :
-    ∀ p ∈ splitlinesAux cs cur b, ∀ c ∈ p, isBreak c = false := by
-  induction cs generalizing cur b with
-  | nil =>
-    intro p hp
-    simp only [splitlinesAux] at hp
-    split at hp
-    · simp at hp
-    · simp only [List.mem_singleton] at hp
-      subst hp; intro c hc; exact hcur c (by simpa using hc)
-  | cons c cs ih =>
-    intro p hp
-    simp only [splitlinesAux] at hp
-    split at hp
-    · exact ih cur false hcur p hp
-    · split at hp
-      · rcases List.mem_cons.mp hp with rfl | hp
-        · intro c hc; exact hcur c (by simpa using hc)
-        · exact ih [] _ (by simp) p hp
-      · rename_i hb
-        refine ih (c :: cur) false ?_ p hp
-        intro d hd
-        rcases List.mem_cons.mp hd with rfl | hd
-        · simpa using hb
-        · exact hcur d hd
-
-/-- Which characters can occur inside a piece of `splitlines`: everything except the ten line
-    boundaries (so in particular neither `\n` nor `\r`). -/
-theorem splitlines_piece_chars (text : String) :
-    ∀ p ∈ splitlines text, ∀ c ∈ p.toList, isBreak c = false := by
-  intro p hp c hc
-  simp only [splitlines, splitlinesChars, List.mem_map] at hp
-  obtain ⟨q, hq, rfl⟩ := hp
-  exact splitlinesAux_no_break _ [] false (by simp) q hq c (by simpa using hc)
-
-theorem not_break_ne {c : Char} (h : isBreak c = false) : c ≠ '\n' ∧ c ≠ '\r' := by
-  simp only [isBreak, Bool.or_eq_false_iff, decide_eq_false_iff_not] at h
-  exact ⟨h.1.1.1.1.1.1.1.1.1, h.1.1.1.1.1.1.1.1.2⟩
-
 theorem mapM_ok {α β : Type} (f : α → Except String β) (g : α → β) (l : List α)
     (h : ∀ x ∈ l, f x = .ok (g x)) : l.mapM f = .ok (l.map g) := by
   induction l with
@@ -133,12 +88,8 @@ theorem mapM_ok {α β : Type} (f : α → Except String β) (g : α → β) (l 
 
 /-! ## Property theorems: comments -/
 
-/-- (a) A comment op's line has no tokens: nothing in the text (quotes, `//`, `;`, `\r`, control
-    characters, `#pragma`, even a line break) can re-open the line for the tokeniser. -/
-theorem comment_line_vanishes (text : String) : tokenise (commentOp text) = [] := by
-  have h : commentOp text = String.ofList ('/' :: '/' :: ' ' :: text.toList) := by
-    apply String.toList_inj.mp; simp [toList_commentOp]
-  rw [h, tokenise_slashes]
+-- (a) `comment_line_vanishes` (a comment op's line has no tokens, whatever its text) is in
+-- `Proofs/AnnotLemmas.lean`, shared with C04.
 
 /-- … and, if the text has no `\n`, the comment op is one physical line that the assembler drops. -/
 theorem comment_line_strips (text : String) (h : '\n' ∉ text.toList) :
@@ -389,49 +340,105 @@ theorem label_not_main (name : String) (idx k : Nat) :
   have := Nat.isDigit_of_mem_toDigits (by decide) (by decide) this
   exact absurd this (by decide)
 
-/-! ## subroutine headers -/
+/-! ## subroutine headers
+
+`TealLabel.assemble` (since the repair 90c7383) cuts the comment — the raw subroutine name — with
+`str.splitlines()` and writes one `// piece` line per piece (one `// ` line when there is none). -/
 
 theorem header_eq (name : String) (idx : Nat) :
-    header name idx = "" ++ "\n" ++ (commentOp name ++ "\n" ++ (subLabel name idx ++ ":")) := by
-  apply String.toList_inj.mp; simp [header, commentOp]
+    header name idx =
+      "" ++ "\n" ++ ("\n".intercalate (headerCommentLines name) ++ "\n" ++ (subLabel name idx ++ ":")) := by
+  apply String.toList_inj.mp; simp [header]
 
-/-
-  FULL STATEMENT (false):
-    theorem name_comment_safe (name : String) (idx : Nat) :
-        stripComments (header name idx) = [[subLabel name idx ++ ":"]]
-  "whatever the subroutine is called, its header contributes exactly one statement, the label".
-  False: the raw name is written after `//` and a `\n` in it ends the comment line — see
-  `name_comment_counterexample` (Python accepts such names: `Subroutine(..., name=…)`, `__name__`).
--/
+/-- the header is the C04 model of `TealLabel.assemble` applied to the raw name and the sanitised label -/
+theorem header_eq_assemble (name : String) (idx : Nat) :
+    header name idx = PyTealV.Models.LabelText.assemble (some name) (subLabel name idx) := rfl
 
-/-- Strongest true restriction: a name without `\n` (anything else allowed: `\r`, VT, U+2028, quotes,
-    `//`, `;`, `#pragma …`, empty, arbitrarily long). -/
-theorem name_comment_safe_partial (name : String) (idx : Nat) (h : '\n' ∉ name.toList) :
-    stripComments (header name idx) = [[subLabel name idx ++ ":"]] := by
-  obtain ⟨_, _, ht, hs, _⟩ := label_sanitised_legal [] name idx
-  have hl : '\n' ∉ (subLabel name idx ++ ":").toList := by
-    intro hm
-    rw [String.toList_append, toList_subLabel] at hm
-    simp only [List.append_assoc, List.cons_append, List.mem_append, List.mem_cons, List.mem_filter] at hm
-    rcases hm with ⟨_, hm⟩ | hm | hm | hm
-    · exact absurd hm (by decide)
-    · exact absurd hm (by decide)
-    · exact absurd (digit_alnum idx _ hm) (by decide)
-    · exact absurd hm (by decide)
-  rw [header_eq, strip_append, strip_append, strip_empty, comment_line_strips name h,
-    strip_single _ hl, ht, hs]
+theorem subLabel_line_no_nl (name : String) (idx : Nat) : '\n' ∉ (subLabel name idx ++ ":").toList := by
+  intro hm
+  rw [String.toList_append, toList_subLabel] at hm
+  simp only [List.append_assoc, List.cons_append, List.mem_append, List.mem_cons, List.mem_filter] at hm
+  rcases hm with ⟨_, hm⟩ | hm | hm | hm
+  · exact absurd hm (by decide)
+  · exact absurd hm (by decide)
+  · exact absurd (digit_alnum idx _ hm) (by decide)
+  · exact absurd hm (by decide)
+
+/-- Every comment line of a header — for EVERY name: is `// ` followed by a piece of
+    `name.splitlines()` (or by nothing), contains none of the ten line boundaries (so it is ONE
+    physical TEAL line), has no tokens and is dropped by the assembler. -/
+theorem header_comment_lines_safe (name : String) :
+    ∀ l ∈ headerCommentLines name,
+      tokenise l = [] ∧ stripComments l = [] ∧ (∃ p ∈ headerPieces name, l = commentOp p) ∧
+      ∀ c ∈ l.toList, isBreak c = false := by
+  intro l hl
+  simp only [headerCommentLines, List.mem_map] at hl
+  obtain ⟨p, hp, rfl⟩ := hl
+  have hb := headerPieces_chars name p hp
+  have hnl : '\n' ∉ p.toList := fun h => (not_break_ne (hb _ h)).1 rfl
+  refine ⟨comment_line_vanishes p, comment_line_strips p hnl, ⟨p, hp, rfl⟩, ?_⟩
+  intro c hc
+  rw [toList_commentOp] at hc
+  simp only [List.mem_cons] at hc
+  rcases hc with rfl | rfl | rfl | hc
+  · decide
+  · decide
+  · decide
+  · exact hb c hc
+
+theorem lines_empty : lines "" = [""] := by decide
+
+/-- a non-empty block of lines without `\n`, joined by `\n`, is read back as those lines -/
+theorem lines_intercalate (ls : List String) (hne : ls ≠ []) (h : ∀ l ∈ ls, '\n' ∉ l.toList) :
+    lines ("\n".intercalate ls) = ls := by
+  induction ls with
+  | nil => exact absurd rfl hne
+  | cons l ls ih =>
+    cases ls with
+    | nil => simpa using lines_single l (h l (by simp))
+    | cons m ms =>
+      rw [String.intercalate_cons_cons, lines_append, lines_single l (h l (by simp)),
+        ih (by simp) (fun x hx => h x (by simp [hx]))]
+      rfl
+
+/-- The physical lines of a header, for EVERY name and index: an empty line, the comment lines
+    (one per piece of the name), the label line. -/
+theorem header_lines (name : String) (idx : Nat) :
+    lines (header name idx) = "" :: (headerCommentLines name ++ [subLabel name idx ++ ":"]) := by
+  have hc : ∀ l ∈ headerCommentLines name, '\n' ∉ l.toList := fun l hl hm =>
+    (not_break_ne ((header_comment_lines_safe name l hl).2.2.2 _ hm)).1 rfl
+  have hne : headerCommentLines name ≠ [] := by
+    simpa [headerCommentLines] using headerPieces_ne_nil name
+  rw [header_eq, lines_append, lines_append, lines_empty, lines_intercalate _ hne hc,
+    lines_single _ (subLabel_line_no_nl name idx)]
   rfl
 
-/-- `Subroutine(TealType.none, name="f\nerr")`: the header contributes an `err` instruction in
-    front of the label (replayed on the real compiler by the harness, key C18-name-newline). -/
-theorem name_comment_counterexample :
-    header "f\nerr" 0 = "\n// f\nerr\nferr_0:" ∧
-    stripComments (header "f\nerr" 0) = [["err"], ["ferr_0:"]] ∧
-    parseInstr [] ["err"] = .ok .err := by
+/-- **Whatever the subroutine is called** (any characters: `\n`, `\r`, `\r\n`, VT, FF, FS, GS, RS, NEL,
+    U+2028, U+2029, quotes, `//`, `;`, `#pragma …`, empty, arbitrarily long), **its header contributes
+    exactly one statement, the label.**  (Before the repair 90c7383 this was false for names with a
+    `\n`: `name_comment_regression`.) -/
+theorem name_comment_safe (name : String) (idx : Nat) :
+    stripComments (header name idx) = [[subLabel name idx ++ ":"]] := by
+  obtain ⟨_, _, ht, hs, _⟩ := label_sanitised_legal [] name idx
+  rw [header_eq, strip_append, strip_append, strip_empty,
+    strip_joined_comments _ (fun l hl => (header_comment_lines_safe name l hl).2.1),
+    strip_single _ (subLabel_line_no_nl name idx), ht, hs]
+  rfl
+
+/-- Regression example for `Subroutine(TealType.none, name="f\nerr")`: the OLD text (`headerOld`,
+    the raw name after `// `) contributed an `err` instruction in front of the label; the text of
+    the repaired code does not (the harness compiles this program with the real compiler and
+    reports a violation if the extra statement ever comes back). -/
+theorem name_comment_regression :
+    headerOld "f\nerr" 0 = "\n// f\nerr\nferr_0:" ∧
+    stripComments (headerOld "f\nerr" 0) = [["err"], ["ferr_0:"]] ∧
+    parseInstr [] ["err"] = .ok .err ∧
+    header "f\nerr" 0 = "\n// f\n// err\nferr_0:" ∧
+    stripComments (header "f\nerr" 0) = [["ferr_0:"]] := by
   refine ⟨by decide, by decide, by
     have h : "err".endsWith ":" = false := by
       rw [Bool.eq_false_iff]; intro e; rw [endsWith_iff] at e; revert e; decide
-    simp [parseInstr, h]⟩
+    simp [parseInstr, h], by decide, by decide⟩
 
 /-! ## wrappers in the code-generation model -/
 section GenLemmas
@@ -482,14 +489,14 @@ end Counter
   modelled here): for every program `p`, every insertion point and every text,
       stripComments (compile (annotate p)) =α stripComments (compile p)
   (`=α`: up to a renaming of labels; for Nonce after deleting the `byte b; pop` pair).
-  It holds on all but four kinds of inputs found by the search; each kind is recorded below on a
+  It holds on all but three kinds of inputs found by the search; each kind is recorded below on a
   concrete pair of outputs of the real compiler (the harness recompiles the pair and compares the
   texts, and reports the kinds as known findings):
-   * `name_comment_counterexample` — line feed in a subroutine name (instructions injected);
    * `wrapped_literal_counterexample` — a wrapper hides a literal from the opcode selection;
    * `layout_counterexample` — a comment-only block changes the block layout (same control flow);
    * `optimiser_counterexample` — a comment between a store and its load inhibits the slot optimiser.
-  The last three leave behaviour, control-flow graph and constants unchanged.
+  (A fourth kind — a line feed in a subroutine name injected instructions — was repaired in the code
+  by 90c7383: `name_comment_safe`, `name_comment_regression`.)  All three leave behaviour, control-flow graph and constants unchanged.
 -/
 
 /-- a text assembled from lines without `\n` has the statements of its lines -/
@@ -550,7 +557,8 @@ example : comment "x\n\ny" = .ok ["// x", "// ", "// y"] := by
 example : mkCommentExpr "a\rb" = .error "TealInputError: Newlines should not be present in the CommentExpr constructor" := by
   have : hasNewline "a\rb" = true := by decide
   simp [mkCommentExpr, this]
-example : '\n' ∉ "a b//;\"é☃\r ".toList := by decide
+example : header "a\r\nb\u2028c\x0b" 3 = "\n// a\n// b\n// c\nabc_3:" ∧ header "" 0 = "\n// \n_0:" ∧
+    header "\n\nx" 1 = "\n// \n// \n// x\nx_1:" := by decide
 example : stripComments (header "a b//;\"é☃\r " 12) = [["ab_12:"]] := by decide
 example : subLabel "" 0 = "_0" ∧ subLabel "é☃ ;" 7 = "_7" := by decide
 example : stripComments ("int 1\n" ++ "\n".intercalate (commentLines "int 0\nreturn") ++ "\n" ++ "return")
